@@ -48,6 +48,7 @@ package smpp
 //@   modifies r.buffer.unread, r.opError
 //@   ensures packet.rinv(r)
 //@   ensures [C16,C11 wf] tlvwf(result)
+//@   ensures [C12 owned] fresh(result)
 //@   ensures [C03 consumed] len(packet.rem(r)) <= old(len(packet.rem(r)))
 //@   ensures [C03 sticky] old(packet.rfailed(r)) ==> packet.rfailed(r)
 //@   ensures [C03 alloc] alloc <= old(alloc) + 25 * (old(len(packet.rem(r))) - len(packet.rem(r))) + 65536 + 256
@@ -59,7 +60,7 @@ package smpp
 //@   ensures [C16,C01,C02 parsed] !packet.rfailed(r) && mapeq(result, M)
 //@   loop 1
 //@     invariant packet.rinv(r)
-//@     invariant tlvwf(tlvs)
+//@     invariant tlvwf(tlvs) && fresh(tlvs)
 //@     invariant len(packet.rem(r)) <= entry(len(packet.rem(r)))
 //@     invariant entry(packet.rfailed(r)) ==> packet.rfailed(r)
 //@     invariant alloc <= entry(alloc) + 25 * (entry(len(packet.rem(r))) - len(packet.rem(r)))
@@ -78,6 +79,7 @@ package smpp
 //@   modifies r.buffer.unread, r.opError
 //@   ensures packet.rinv(r)
 //@   ensures [C16,C11 wf] tlvwf(result)
+//@   ensures [C12 owned] fresh(result)
 //@   ensures [C16 err] err != nil ==> len(result) == 0
 //@   ensures [C03 consumed] len(packet.rem(r)) <= old(len(packet.rem(r)))
 //@   ensures [C03 sticky] old(packet.rfailed(r)) ==> packet.rfailed(r)
@@ -90,7 +92,7 @@ package smpp
 //@   ensures [C16,C01,C02 parsed] err == nil && !packet.rfailed(r) && mapeq(result, M)
 //@   loop 1
 //@     invariant packet.rinv(r)
-//@     invariant tlvwf(tlvs)
+//@     invariant tlvwf(tlvs) && fresh(tlvs)
 //@     invariant len(packet.rem(r)) <= entry(len(packet.rem(r)))
 //@     invariant entry(packet.rfailed(r)) ==> packet.rfailed(r)
 //@     invariant alloc <= entry(alloc) + 25 * (entry(len(packet.rem(r))) - len(packet.rem(r)))
